@@ -184,7 +184,7 @@ MANIFEST = {
             "survives until deregistered; (guards) second registration EEXIST with any flag word on idle/looping context and "
             "from a handler and on two threads, finalize gate for any module flag word, the full menu of context and module "
             "calls with unconstrained arguments from a thread without context (also before the thread-specific key exists) "
-            "returning an error and leaving module, context, allocations, descriptors and callback log unchanged",
+            "returning an error and leaving module, context, allocations, descriptors and callback log unchanged; the CTX_STOPPED handler of the loop-stop flush deregistering the last module or the context",
     "note": "call order, module count/states and every context flag bit are per-job constants (a symbolic flag word makes "
             "PERSIST/NAME_DUP tests symbolic: no verdict); symbolic per job: errno left by callbacks, quit code, user data "
             "identity, refused flag words and all arguments of refused calls; bounds: <= 3 modules, <= 1 loop run, 2 "
